@@ -18,9 +18,10 @@
                            STREAM: initial starts, seed set, every hold-out and every new start computed from
                            the words following rand 0.8.8 -- no hold-out index, no choice list as input.
                            sampler_deterministic, sampler_inv_stream, sampler_no_panic_oops_stream(_closed).
-     allowed_w r           Ok, the documented panics 5..9, Err 2 (seed set rejected by new_), Err 5 (the stream
-                           ends / wrong word width), Err 6 (unmodelled branch of index::sample), OutOfFuel
-                           (proved impossible: sampler_stream_never_out_of_fuel); NOT Err 1 / 3 / 4.
+     allowed_w r           Ok, the documented panics 5..9, Err 5 (the stream ends / wrong word width), Err 6
+                           (unmodelled branch of index::sample), Err 2 (seed set rejected by new_) and OutOfFuel
+                           (both proved impossible: sampler_stream_never_err2 / _never_out_of_fuel;
+                           sampler_inv_stream_closed); NOT Err 1 / 3 / 4.
 
    Theorems only (closed by lemmas of SamplerF32Proofs / SamplerF64 / SamplerStreamProofs / SamplerFuel). *)
 From Coq Require Import List Arith Bool NArith ZArith Lia.
@@ -28,7 +29,7 @@ From LMBase Require Import Res ListX IEEE.
 From LMPwm Require Import PwmModel.
 From LMSampler Require Import SamplerModel SamplerLemmas SamplerSpec SamplerProofs SamplerRun
   SamplerF32 SamplerF32Proofs SamplerF64 SamplerSupport SamplerScale SamplerWord SamplerShape
-  SamplerOops SamplerStream SamplerStreamProofs SamplerFuel.
+  SamplerOops SamplerStream SamplerStreamProofs SamplerFuel SamplerSeeds.
 Import ListNotations.
 
 (* ------------------------------------------------------------------ the draw *)
@@ -375,6 +376,56 @@ Proof.
   - right. right. congruence.
   - right. left. congruence.
   - contradiction.
+Qed.
+
+
+(* ------------------------------------------------------------------ the seed set *)
+
+(* rand::seq::index::sample as modelled (Floyd's algorithm with / without the in-loop shuffle, the
+   trailing shuffle, the in-place partial Fisher-Yates): for every stream the result is a seed
+   set that _new accepts -- min(initial, n) pairwise distinct indices below n -- or the stream
+   fell short (5) / the branch is not modelled (6: n >= 500_000 or more than 162 seeds) *)
+Theorem seed_set_from_stream_valid :
+  forall n initial ws,
+    (N.of_nat n <= u32_max)%N -> stream_ok ws ->
+    match seeds_w n initial ws with
+    | Ok (sd, r) => seeds_ok n initial sd /\ stream_ok r
+    | Err e => (e = 5 \/ e = 6)%nat
+    | _ => False
+    end.
+Proof. intros n initial ws Hn Hs. exact (seeds_w_valid n initial Hn ws Hs). Qed.
+
+Theorem sampler_stream_never_err2 :
+  forall flog2 fpow2 fexp2 K W data wraps m initial inertia patience k ws,
+    data_ok K W data ->
+    Forall (fun wr => (W <= wr)%nat) wraps ->
+    stream_ok ws ->
+    sampler_w flog2 fpow2 fexp2 K W data wraps m initial inertia patience k ws <> Err 2.
+Proof. exact sampler_w_no_err2. Qed.
+
+(* sampler_inv_stream with the two impossible outcomes removed: C16 holds at every step, or a
+   documented panic 5..9, or the stream fell short (5) / index::sample's unmodelled branch (6) *)
+Theorem sampler_inv_stream_closed :
+  forall (freq : N -> N -> Z) flog2 fpow2 fexp2 K W data wraps m initial inertia patience k ws,
+    data_ok K W data ->
+    Forall (fun wr => (W <= wr)%nat) wraps ->
+    stream_ok ws ->
+    match sampler_w flog2 fpow2 fexp2 K W data wraps m initial inertia patience k ws with
+    | Ok (cs, t, r) =>
+        length t = k /\
+        Holds_C16 freq K W data (report_of freq (snd cs)) (obs_of_trace freq t)
+    | Panic s => (5 <= s <= 9)%nat
+    | Err e => (e = 5 \/ e = 6)%nat
+    | OutOfFuel => False
+    end.
+Proof.
+  intros freq flog2 fpow2 fexp2 K W data wraps m initial inertia patience k ws Hd Hw Hs.
+  pose proof (sampler_w_holds flog2 fpow2 fexp2 freq K W data wraps m initial inertia patience k ws Hd Hw Hs) as H1.
+  pose proof (sampler_w_no_fuel flog2 fpow2 fexp2 K W data wraps m initial inertia patience k ws Hd Hw Hs) as H2.
+  pose proof (sampler_w_no_err2 flog2 fpow2 fexp2 K W data wraps m initial inertia patience k ws Hd Hw Hs) as H3.
+  destruct (sampler_w flog2 fpow2 fexp2 K W data wraps m initial inertia patience k ws) as [[[cs t] r]|e|s|];
+    cbn [allowed_w] in H1; auto.
+  destruct H1 as [->|H1]; [congruence|exact H1].
 Qed.
 
 (* ------------------------------------------------------------------ pins *)
